@@ -23,6 +23,7 @@ func genNext(r *hx.Rand, p profile, kind string) func(map[string]bool, int) *sOp
 	nextID := int64(1)
 	hid := int64(1)
 	returned := false
+	hRecving := false // H's operation in flight is a receive (one receiver at a time on a stream)
 	cancelled := false
 	cancelAt := -1
 	if r.Chance(p.cancel) {
@@ -60,9 +61,16 @@ func genNext(r *hx.Rand, p profile, kind string) func(map[string]bool, int) *sOp
 					cand = append(cand, sOp{actor: "CR", kind: "CTrailer"})
 				}
 			}
+			if !busy["H"] {
+				hRecving = false
+			}
+			// a second handler goroutine receives while the first one sends
+			if !busy["HR"] && !hRecving && (!returned || r.Chance(10)) && (!p.stall || r.Chance(20)) && r.Chance(35) {
+				cand = append(cand, sOp{actor: "HR", kind: "HRecv"})
+			}
 			if !busy["H"] && !returned {
 				cand = append(cand, sOp{actor: "H", kind: "HSend", x: 100 + nextID}, sOp{actor: "H", kind: "HSend", x: 100 + nextID})
-				if !p.stall || r.Chance(20) {
+				if (!p.stall || r.Chance(20)) && !busy["HR"] {
 					cand = append(cand, sOp{actor: "H", kind: "HRecv"})
 				}
 				if r.Chance(p.headers) {
@@ -86,6 +94,10 @@ func genNext(r *hx.Rand, p profile, kind string) func(map[string]bool, int) *sOp
 				hid++
 			case "HReturn":
 				returned = true
+			case "HRecv":
+				if c.actor == "H" {
+					hRecving = true
+				}
 			}
 			return &c
 		}
